@@ -17,6 +17,8 @@ import EPV.Lemmas.StringsUri
 import EPV.Lemmas.StringsCase
 import EPV.Lemmas.StringsJoin
 import EPV.Lemmas.StringsCollation
+import EPV.Lemmas.StringsToken
+import EPV.Lemmas.StringsNumber
 namespace EPV.C09
 open EPV.FOStrings (Str Num Err)
 open EPV
@@ -469,5 +471,52 @@ valid in the original string -/
 example : Strings.compareC .htmlAscii [0xDF] [115, 115] = 1 ∧ Strings.compareC .htmlAscii [97] [65] = 0 ∧
     Strings.compareC .htmlAscii [0xE9] [0xC9] = 1 ∧
     Strings.substringBeforeC .htmlAscii [0xDF, 120, 121] [89] = [0xDF, 120] := by decide
+
+
+/-! ## contains-token (3.1) -/
+
+open EPV.FOStrings (Collation) in
+/-- `contains-token` of the code (`strip`, `re.split` at runs of XML whitespace, non-empty pieces
+compared with `CollationManager.eq`) is the F&O definition
+`some $t in $input ! tokenize(.) satisfies compare($t, trim($token), $collation) eq 0`, false for an
+empty trimmed token — any number of input strings, both code-point based collations. -/
+theorem contains_token_eq_spec (col : Collation) (input : List Str) (token : Str) :
+    Strings.containsToken col input token = FOStrings.containsToken col input token :=
+  Strings.containsToken_eq_spec col input token
+
+/-! ## non-string arguments: `string_value` of booleans and numbers vs XPath 1.0 `string()` -/
+
+/-- PARTIAL (known finding F09g).  Full statement: for every boolean, integer, decimal and double
+`string_value` returns the XPath 1.0 §4.2 `string()` text (NaN, Infinity, -Infinity, 0 for both
+zeros, integers without point, otherwise digits.digits without exponent, leading or trailing zeros).
+It is proved for all arguments outside `xp1Trigger` (infinite floats, negative zero, floats that
+Python prints with an exponent: 0 < |x| < 1e-4 or |x| ≥ 1e16), where the code keeps `INF`, `-0`,
+`1E16`; see the counter-examples below.  `NumArgWf`: the digit strings are decimal digits without a
+leading zero (what `Decimal._int` and `dtoa` deliver). -/
+theorem string_value_xpath1_partial (a : FOStrings.NumArg) (hw : Strings.NumArgWf a)
+    (ht : Strings.xp1Trigger a = false) : Strings.stringValue a = FOStrings.xp1String a :=
+  Strings.stringValue_eq_xp1 a hw ht
+
+/-- F09g: the full statement fails inside the trigger: `+INF`, `1e16`, `1e-05`, `-0.0` -/
+theorem string_value_xpath1_fails :
+    Strings.stringValue (.finf false) ≠ FOStrings.xp1String (.finf false) ∧
+    Strings.stringValue (.flt false [1] 17) ≠ FOStrings.xp1String (.flt false [1] 17) ∧
+    Strings.stringValue (.flt false [1] (-4)) ≠ FOStrings.xp1String (.flt false [1] (-4)) ∧
+    Strings.stringValue (.flt true [0] 1) ≠ FOStrings.xp1String (.flt true [0] 1) ∧
+    Strings.xp1Trigger (.finf false) = true ∧ Strings.xp1Trigger (.flt false [1] 17) = true ∧
+    Strings.xp1Trigger (.flt false [1] (-4)) = true ∧ Strings.xp1Trigger (.flt true [0] 1) = true := by
+  decide
+
+/-- the hypotheses of the partial theorem are satisfiable on non-trivial values: 12345.678, 1e15,
+0.0001, the decimal -12.3400, 100 -/
+example : (Strings.NumArgWf (.flt false [1,2,3,4,5,6,7,8] 5) ∧ Strings.xp1Trigger (.flt false [1,2,3,4,5,6,7,8] 5) = false ∧
+      Strings.stringValue (.flt false [1,2,3,4,5,6,7,8] 5) = [49,50,51,52,53,46,54,55,56]) ∧
+    (Strings.xp1Trigger (.flt false [1] 16) = false ∧ Strings.stringValue (.flt false [1] 16) =
+      [49,48,48,48,48,48,48,48,48,48,48,48,48,48,48,48]) ∧
+    (Strings.xp1Trigger (.flt false [1] (-3)) = false ∧ Strings.stringValue (.flt false [1] (-3)) = [48,46,48,48,48,49]) ∧
+    Strings.stringValue (.dec true [1,2,3,4,0,0] (-4)) = [45,49,50,46,51,52] ∧
+    Strings.stringValue (.flt false [1] 3) = [49,48,48] := by
+  refine ⟨⟨?_, by decide, by decide⟩, by decide, by decide, by decide, by decide⟩
+  exact ⟨⟨by decide, Or.inr ⟨1, [2,3,4,5,6,7,8], rfl, by decide⟩⟩, by decide⟩
 
 end EPV.C09
